@@ -331,6 +331,7 @@ func onlyVia(fn *ssa.Function, target ssa.Instruction, via edgePred) bool {
 //   - a φ of constants, or a comparison of one with a constant (`kind := A; if c { kind = B }; … kind == B`):
 //     every input that gives v the value truth must come in from a block that is reached only over
 //     edges on which base holds.
+//
 // Anything else (a φ input that is not a constant, a cell with several stores) is not an implication.
 func boolImplies(v ssa.Value, truth bool, base func(v ssa.Value, truth bool) bool) bool {
 	return boolImplies0(v, truth, base, 0)
